@@ -69,7 +69,7 @@ PROPS["C11"] = {
             "non-trivial = a second or later snapshot taken at a position that is not a multiple of the block length (any second snapshot for sample-granular encodings); distinct = hash of (format, channels, N, type, partition, mode). coverage.snapshots_checked counts the crash points examined",
     "assumptions": BASE_ASSUME + ["a crash is modelled as a copy of the bytes the virtual I/O layer had accepted when the update returned (no partial write of the update itself)"],
     "stages": [
-        {"bin": "c11", "quick": {"cases": 5000, "workers": 16, "budget": 150}, "thorough": {"cases": 40000, "workers": 16, "budget": 1200}},
+        {"bin": "c11", "quick": {"cases": 10000, "workers": 16, "budget": 150}, "thorough": {"cases": 40000, "workers": 16, "budget": 1200}},
     ],
 }
 
@@ -184,7 +184,7 @@ PROPS["C12"] = {
                                   "WAV smpl cannot hold a negative detune (unsigned pitch fraction): detune is asserted for values >= 0 only; cue names are asserted for AIFF only (WAV never writes them)",
                                   "software strings are kept <= 64 bytes (the 128-byte staging buffer of psf_store_string is not under test)"],
     "stages": [
-        {"bin": "c12", "quick": {"cases": 6000, "workers": 16, "budget": 200}, "thorough": {"cases": 40000, "workers": 16, "budget": 1500}},
+        {"bin": "c12", "quick": {"cases": 12000, "workers": 16, "budget": 200}, "thorough": {"cases": 40000, "workers": 16, "budget": 1500}},
     ],
 }
 
